@@ -235,6 +235,13 @@ class C11(SessionProperty):
                 ops.append({"op": "rm", "path": nm} if rng.random() < 0.4 else {"op": "set", "path": nm, "value": str(tag + 50)})
                 if mode != "live" and rng.random() < 0.5:
                     ops.append({"op": "restart"})
+            elif ops and rng.random() < 0.25:
+                # ... or a same-named binding of a let layer (added to / removed from the innermost or the next
+                # layer; without any layer the first one is created): what the name means changes between two
+                # write-through edits of one object
+                nm = rng.choice(scopegen.NAMES)
+                at = rng.choice(["@", "@", "@@"])
+                ops.append({"op": "rm", "path": at + nm} if rng.random() < 0.3 else {"op": "set", "path": at + nm, "value": str(tag + 70)})
             ops.append({"op": kind, "path": ".".join(probe), "value": value})
         return {"prop": "C11", "engine": "session", "seed": seed, "tier": tier, "cfg": {}, "doc": prog["text"], "ops": ops}
 
